@@ -1,5 +1,6 @@
 import Oracle.Util
 import MobiusModel.Chat
+import MobiusModel.StalledDelivery
 /-! Oracle handlers for C12 (model functions exposed on the line protocol). -/
 namespace Oracle
 open Mobius
@@ -52,7 +53,45 @@ def chatInboxes (w : ChatWorld) : List ChatEv → List (Nat × Out)
     let (w1, os) := w.step e
     (os.filterMap fun o => (deliver w1.reg o).map fun k => (k, o)) ++ chatInboxes w1 es
 
+/-- A pseudo-random schedule for the goroutines `sends`: at each step either the dispatcher starts the next one
+    or one of the pending writes is tried (LCG on `seed`). -/
+def stallSchedule : Nat → Nat → List (Send Out) → Nat → List (NetEv Out)
+  | 0, _, rest, _ => rest.map .spawn
+  | fuel + 1, seed, rest, npend =>
+    let seed' := (seed * 6364136223846793005 + 1442695040888963407) % 18446744073709551616
+    let r := seed' / 65536
+    match rest with
+    | [] => if npend = 0 then [] else .fire (r % npend) :: stallSchedule fuel seed' [] npend
+    | s :: rest' =>
+      if r % 3 = 0 ∧ npend > 0 then .fire (r / 3 % npend) :: stallSchedule fuel seed' rest npend
+      else .spawn s :: stallSchedule fuel seed' rest' (npend + 1)
+
+/-- Fire until nothing deliverable is pending (the schedule `Net.exists_quiet_schedule` proves to exist). -/
+def drainNet : Nat → Net Out → Net Out
+  | 0, n => n
+  | fuel + 1, n =>
+    match n.pending.findIdx? (fun s => n.reads s.to) with
+    | some i => drainNet fuel (n.step (.fire i))
+    | none => n
+
 def c12Handlers : List (String × Handler) := [
+  -- c12stall <stalled connections, comma separated | -> <events of phase 1> <seed> <chat events…>
+  --   phase 1 (everybody reads) is delivered in full, the connections stall, the goroutines of the rest of the history run
+  --   under a pseudo-random schedule, then the net is drained: the inboxes in the form of c12inbox, then pending=<n>
+  ("c12stall", fun (a : List String) => match a with
+    | st :: p1 :: seed :: rest =>
+      let evs := parseChatEvs rest
+      let all := chatSends ChatWorld.init evs
+      let s1 := chatSends ChatWorld.init (evs.take (num p1))
+      let s2 := all.drop s1.length
+      let stalled := if st = "-" ∨ st = "" then [] else (st.splitOn ",").map num
+      let n1 := drainNet (s1.length + 1) (Net.run {} (s1.map .spawn))
+      let n2 := Net.run n1 (stalled.map .stall)
+      let n3 := drainNet (all.length + 1) (Net.run n2 (stallSchedule (4 * s2.length + 8) (num seed) s2 0))
+      let conns := (all.map (·.to)).foldr (fun k acc => if acc.contains k then acc else insertNat k acc) []
+      " | ".intercalate (conns.map fun k => s!"{k}>" ++ outsStr (n3.inbox k)) ++
+        s!" | pending={n3.pending.length} quiet={decide (n3.pending.all fun s => !n3.reads s.to)}"
+    | _ => "bad-op"),
   ("c12run", fun (a : List String) =>
     let evs := parseChatEvs a
     let (w, outs) := ChatWorld.init.run evs
